@@ -159,6 +159,11 @@ def case_mibdump(idx, rng, tier, res):
             if health[m] == 'oidloop' and fmt == 'null':
                 health[m] = 'unresolved'    # the null generator resolves no OIDs: nothing to detect there
         requested = [mods[0]] if gname != 'two_roots' else mods[:2]
+        # every ninth run: a requested module that cannot be compiled, dependencies skipped, a borrower at hand
+        forced = idx % 9 == 4 and ext is not None
+        if forced:
+            health[requested[0]] = rng.choice(['synerr', 'untyped', 'truncated', 'absent'])
+            res.count('requested_broken_nodeps_borrowable_runs')
         alias = None
         for b in orch.BASE:
             with open(os.path.join(src, b), 'w') as f:
@@ -184,15 +189,17 @@ def case_mibdump(idx, rng, tier, res):
         if rng.random() < 0.1:
             opts.append('--debug=' + rng.choice(['all', 'compiler', 'reader,searcher,writer', 'parser,codegen,borrower']))
             res.count('runs_with_debug_logging')
+        if forced and '--no-dependencies' not in opts:
+            opts.append('--no-dependencies')
         borrowable = []
         bor_text = {}       # module -> text of the copy in the first borrower (command-line order) holding it
         bor2 = os.path.join(base, 'a-second-borrower')      # sorts before 'bor': order given != sorted order
         os.makedirs(bor2)
         two_borrowers = rng.random() < 0.5
-        if ext and rng.random() < 0.4:
+        if ext and (forced or rng.random() < 0.4):
             for m in mods:
                 for bi, bdir in enumerate([bor, bor2] if two_borrowers else [bor]):
-                    if rng.random() < 0.5:
+                    if rng.random() < 0.5 or (forced and m == requested[0] and bi == 0):
                         t_ = ('BORROWED copy of %s at borrower %d\n' if fmt == 'json' else '# borrowed %s at borrower %d\n') % (m, bi)
                         with open(os.path.join(bdir, m + ext), 'w') as f:
                             f.write(t_)
